@@ -232,7 +232,7 @@ func (g *G) SyntaxExpr(depth int) *Expr {
 	return e
 }
 
-var syntaxStrings = []string{"", "a", "it's", "back\\slash", "new\nline", "tab\t", "\r", "quote\"d", "é", "日本", "𝄞", "{}", "a}b", "\x01", " ", "'", "\\'", "x y", "</script>", "\b\f"}
+var syntaxStrings = []string{"", "a", "it's", "back\\slash", "new\nline", "tab\t", "\r", "quote\"d", "é", "日本", "𝄞", "{}", "a}b", "\x01", " ", "'", "\\'", "x y", "</script>", "\b\f", "l'été", "日本\n", "é\\", "𝄞'\t", "ß\"ü"}
 var syntaxFloats = []string{"0.0", "1.0", "2.5", "100.0", "1e3", "1.5e-3", "6.02e23", "0.001", "123456789.125", "1e21", "1e-7", "5e0"}
 var syntaxIdents = []string{"x", "foo", "a_b", "camelCase", "X9", "_u"}
 
